@@ -179,14 +179,32 @@ def run_room(ctx, rseed, mode, order=None):
         if len(sol.cf_poses) != len(ks):
             bad = ('lh:cf-pose-count-differs', {'got': len(sol.cf_poses), 'want': len(ks)})
         else:
-            for p, k in zip(sol.cf_poses, ks):
+            cf_off, bs_worst = [], (worst_t, worst_r)
+            for j_, (p, k) in enumerate(zip(sol.cf_poses, ks)):
                 Rc, tc = rm['cf'][k]
                 et, er = pose_err(p.rot_matrix, p.translation, R0.T @ Rc, R0.T @ (tc - t0))
                 ctx.count('mon.cf_poses_compared')
                 worst_t, worst_r = max(worst_t, et), max(worst_r, er)
+                if not (et < 1e-3 and er < 1e-3):
+                    g_ = guess.cf_poses[j_] if j_ < len(guess.cf_poses) else None
+                    ge = pose_err(g_.rot_matrix, g_.translation, R0.T @ Rc, R0.T @ (tc - t0)) if g_ is not None else (None, None)
+                    cf_off.append({'sample': j_, 'seen_by': sorted(cleaned[j_].angles_calibrated.keys()) if j_ < len(cleaned) else None,
+                                   'translation_error_m': et, 'rotation_error_rad': er,
+                                   'initial_estimate_translation_error_m': ge[0], 'initial_estimate_rotation_error_rad': ge[1]})
     if bad is None and not (worst_t < 1e-3 and worst_r < 1e-3):
         bad = ('lh:pose-error-above-1mm-1mrad', {'worst_translation_m': worst_t, 'worst_rotation_rad': worst_r,
                                                   'solver_success': bool(sol.success)})
+    if bad is not None and bad[0] == 'lh:pose-error-above-1mm-1mrad' and sol.success and len(cleaned) == len(matched) and \
+            len(matched) > 5 and bs_worst[0] < 1e-3 and bs_worst[1] < 1e-3 and worst_t < 1e-3 and cf_off and \
+            all(c_['translation_error_m'] < 1e-3 and c_['initial_estimate_rotation_error_rad'] is not None and
+                c_['initial_estimate_rotation_error_rad'] > 0.5 and c_['initial_estimate_translation_error_m'] < 0.01 and
+                len(c_['seen_by'] or ()) == 2 for c_ in cf_off):
+        # second known finding: every position (base stations and Crazyflie) is right to a millimetre, but the initial estimator
+        # handed the solver the MIRROR orientation for a Crazyflie pose that is seen by two base stations only (position right,
+        # orientation off by a large angle) and the solver stayed in that local minimum (success=True)
+        bad = ('lh:crazyflie-pose-seen-by-two-base-stations-left-in-its-mirror-orientation',
+               dict(bad[1], poses_left_in_the_mirror_orientation=cf_off[:4], samples=len(matched)))
+        ctx.count('mon.rooms_hit_by_the_mirror_orientation_finding')
     if bad is not None and bad[0] in ('lh:pose-error-above-1mm-1mrad', 'lh:base-station-set-differs') and \
             (len(matched) <= 5 or len(cleaned) < len(matched) or not sol.success):
         # poor initial estimate (known finding): the estimator's vote between the mirror IPPE solutions had too few
@@ -328,6 +346,11 @@ def post_check(counters, tier):
     if badc + goodc >= 20 and badc > 0.25 * (badc + goodc):
         return [('lh:chain-visibility-rooms:initial-estimate-failures-far-above-the-known-rate',
                  {'chain_rooms': badc + goodc, 'failed': badc})]
+    # the mirror-orientation finding: one room in many thousands on the repaired tree
+    badm = counters.get('mon.rooms_hit_by_the_mirror_orientation_finding', 0)
+    if badm >= 4 and badm > 0.01 * max(1, counters.get('mon.rooms_solved', 0)):
+        return [('lh:crazyflie-poses-left-in-the-mirror-orientation-far-above-the-known-rate',
+                 {'rooms': counters.get('mon.rooms_solved', 0), 'hit': badm})]
     # generic rooms (random poses; full, random partial and windowed visibility): about 1 in 3000 on the repaired tree
     bado = counters.get('mon.other_rooms_hit_by_the_known_finding', 0)
     goodo = counters.get('mon.rooms_solved', 0) - good - goodc
